@@ -19,6 +19,8 @@ func c22(c *rig.Ctx) {
 		"0-3 single-row writes with globally unique cell values; re-reads (full and point, home branch and `db/branch`.t of other branches); " +
 		"COMMIT|ROLLBACK, plus bare autocommit reads and CAS writes. Checked: every re-read equals the first read with own writes applied; " +
 		"every value read was written by a transaction whose COMMIT was invoked before the reader's first read returned and did not fail. " +
+		"Access-path runs: database created as MixDb_n and addressed in per-session casing; one writer per branch does BEGIN; DML; CALL dolt_commit(-A); readers re-read every branch through " +
+		"`db/b`.t, t AS OF 'b', t AS OF 'HEAD', dolt_branches, dolt_log, hashof('HEAD') inside one transaction: every re-read equals the first, and the paths agree. " +
 		"A run is distinct/non-trivial when its (sessions,branches,keys,reads-after-a-foreign-commit>0,lazy-branch-reads>0) signature is new and " +
 		"at least one re-read happened after another session committed to the branch read")
 	c.Assume("the client clock (CLOCK_MONOTONIC in one process) orders call/return events of different sessions; driver and wire protocol deliver results unaltered")
@@ -53,9 +55,16 @@ func c22(c *rig.Ctx) {
 			break
 		}
 	}
+	// access-path runs: mixed-case database names, AS OF / dolt_branches / dolt_log inside open transactions
+	for i := 0; i < c.Pick(5, 60) && distinctViolationKeys() <= 25; i++ {
+		c22Paths(c, srv, i, tot)
+	}
 	for k, v := range tot {
 		c.Count("c22."+k, v)
 	}
+	c.Require(tot["paths.rereads_after_foreign_dolt_commit:asof"] > 0 && tot["paths.rereads_after_foreign_dolt_commit:branches"] > 0 && tot["paths.rereads_after_foreign_dolt_commit:ws"] > 0,
+		"access-path runs: no AS OF / dolt_branches / working-set re-read happened after another session's dolt_commit on that branch")
+	c.Require(tot["paths.agreements_checked"] > 0, "access-path runs: no agreement between access paths was checked")
 	c.Count("c22.commit_path_ff", int(pc.ff.Load()))
 	c.Count("c22.commit_path_merge", int(pc.merge.Load()))
 	c.Require(tot["reads_after_foreign_commit"] > 0, "no re-read happened after a concurrent commit to the branch read (snapshots never mattered)")
